@@ -41,10 +41,10 @@ CLAIMS = {
     "C06": ("Theorems over the regenerated constants: documented 32-bit layout, 64-bit layout, saturation at exactly 2^14-1 on both widths, totality of unboxing (never a crash), tag table; "
             "the constants AND the bodies of NanBox::encode / NanBox::number / NanBox::try_decode (with NanBox::tag inlined and both pointer-width variants of its cfg pair) are re-translated from core/src/read.rs on every run (C06_model_is_the_source_text proves the model functions equal to the regenerated ones, for every bit pattern); box/unbox compared with the real crate on all boundary lengths x pointers, decision-relevant prefix/tag patterns, random doubles and raw patterns natively, and at 32-bit pointer width under miri/i686 on a fixed corpus of 281 box/unbox lines (quick and thorough).",
             TB, "Lean 4 theorems over translated constants (decide +kernel) + differential correspondence", "§4 C06"),
-    "C07": ("Theorems over a model of TrampolineCodegen::new/apply (Model/Tramp.lean: stepOne per IMPORTS entry, every occurrence of an import handled) driven by the tables regenerated from trampoline/src/lib.rs: no own memory => returned unchanged; more than one own memory, an unknown API-namespace name, another API version => rejected; "
+    "C07": ("Theorems over a model of TrampolineCodegen::new/apply (Model/Tramp.lean: stepOne per IMPORTS entry, every occurrence of an import handled) driven by the tables regenerated from trampoline/src/lib.rs: no own memory => returned unchanged; more than one own memory, another API version => rejected; C07_reject_name_outside_abi: an import from the API namespace whose name is neither a public API function (WAT), nor a provider export, nor `memory` — the empty name included (F12, fixed) — is rejected whatever else the module contains (C07_known_names_are_the_abi: the names the scan tolerates are exactly those, kernel-decided over the regenerated tables and the names the probed tool accepts among ~280 near-miss candidates); "
             "C07_reject_bad_signature (a string-carrying function import whose signature is not the expected one is rejected wherever it stands, whatever else is imported, also as a second import of the same name); C07_idempotent (the import section the tool produces is accepted and left exactly as it is by a second application — uses table facts discharged by the kernel on the regenerated tables: no new name is an original name, helper names are known and never original names); "
             "an accepted module keeps exactly one own memory, keeps namespace and kind of every import it keeps, and everything added is imported from the provider namespace; the emitted family has memory 0 = imported provider memory, memory 1 = guest's own. "
-            "Accept / reject class / resulting import multiset compared with the real tool on generated modules and all single-defect variants (no memory, two memories, unknown name, other version, wrong signature x5, foreign same name, foreign memory, the same function imported twice, twice with another signature, a non-function import carrying an API name); outputs validated, re-trampolined (byte-level idempotence) and executed next to the original in wasmtime (own exports, data, start, globals, memory).",
+            "Accept / reject class / resulting import multiset compared with the real tool on generated modules and all single-defect variants (no memory, two memories, unknown and near-miss names — every one also checked against an acceptance oracle that does not go through the model —, other version, wrong signature x5, foreign same name, foreign memory, the same function imported twice, twice with another signature, a non-function import carrying an API name); outputs validated, re-trampolined (byte-level idempotence) and executed next to the original in wasmtime (own exports, data, start, globals, memory).",
             TB + "Preservation of the guest's own behaviour depends on walrus' re-emission: validated by differential execution, not proved (partial). Idempotence is proved for the decision and the import section; byte-for-byte equality of the second output is checked by correspondence.",
             "Lean 4 theorems over a model of the acceptance logic + differential runs of the real tool (wasmparser validation, wasmtime execution)", "§4 C07"),
     "C08": ("Theorem C08_every_history_arbitrary_bytes: for EVERY byte string (no hypothesis on the input) and EVERY finite sequence of read calls on handles the client was given, the model of read.rs + lazy_value_ref.rs answers exactly Spec.run — the sequential header walk, which says ReadError wherever it cannot decode (truncation, unsupported marker, non-string key, unreadable value header, NaN). "
